@@ -34,12 +34,12 @@ use write_fonts::{dump_table, FontBuilder};
 pub const SLOTS: [&str; 3] = ["fpgm", "prep", "glyph"];
 
 /// PUSHB[n-1] b…  /  PUSHW[n-1] w…
-fn pushb(v: &[u8]) -> Vec<u8> {
+pub fn pushb(v: &[u8]) -> Vec<u8> {
     let mut o = vec![0xB0 + (v.len() as u8 - 1)];
     o.extend_from_slice(v);
     o
 }
-fn pushw(v: &[i16]) -> Vec<u8> {
+pub fn pushw(v: &[i16]) -> Vec<u8> {
     let mut o = vec![0xB8 + (v.len() as u8 - 1)];
     for w in v {
         o.extend_from_slice(&w.to_be_bytes());
@@ -259,6 +259,22 @@ impl FontParts {
             cvt,
             default_glyf: glyf_loca(&DEFAULT_CALL),
         }
+    }
+    /// The font with explicit fpgm, prep and glyph-1 programs.
+    pub fn build3(&self, fpgm: &[u8], prep: &[u8], glyph: &[u8], lim: &[u16; 7]) -> Vec<u8> {
+        let (glyf, loca, long) = glyf_loca(glyph);
+        let mut fb = FontBuilder::new();
+        use skrifa::Tag;
+        fb.add_raw(Tag::new(b"head"), head(long));
+        fb.add_raw(Tag::new(b"hhea"), self.hhea.clone());
+        fb.add_raw(Tag::new(b"maxp"), maxp(3, lim));
+        fb.add_raw(Tag::new(b"hmtx"), self.hmtx.clone());
+        fb.add_raw(Tag::new(b"cvt "), self.cvt.clone());
+        fb.add_raw(Tag::new(b"fpgm"), fpgm.to_vec());
+        fb.add_raw(Tag::new(b"prep"), prep.to_vec());
+        fb.add_raw(Tag::new(b"loca"), loca);
+        fb.add_raw(Tag::new(b"glyf"), glyf);
+        fb.build()
     }
     /// The font whose `slot` holds `program`.
     pub fn build(&self, slot: usize, program: &[u8], lim: &[u16; 7]) -> Vec<u8> {
